@@ -104,6 +104,16 @@ set when the block is *not* compressed -/
 def sizeWord (b : DataBlock) : Nat :=
   if hasFlag b.flags blkIsCompressed then b.data.length else b.data.length ||| (1 <<< 24)
 
+/-- what `process_completed_block` (backend.c:55-128) records for a finished block, as (word stored at the block's
+index in the inode's block list, word stored in the fragment table), `none` = untouched: a sparse block puts 0 into
+the inode's list (:88-97); a non-empty block gets `sizeWord` — in the fragment table if it carries
+`SQFS_BLK_FRAGMENT_BLOCK`, else in the inode (:98-121); an empty block records nothing -/
+def completedWords (b : DataBlock) : Option Nat × Option Nat :=
+  if hasFlag b.flags blkIsSparse then (some 0, none)
+  else if b.data.length ≠ 0 then
+    (if hasFlag b.flags blkFragmentBlock then (none, some (sizeWord b)) else (some (sizeWord b), none))
+  else (none, none)
+
 /-! ### `sqfs_write_table` -/
 
 /-- bytes a list of metadata blocks occupies on disk (2-byte header + stored bytes each, meta_writer.c:60) -/
